@@ -267,3 +267,9 @@ def r7(ctx):
                    f"check() raises {bad[0].exc_class} -- it mixes the old and the new last_ping_tm; a responsive peer is reported as timed out",
                    bad[0].run.memo.get("@preempted") or loc if bad else loc, {"path": path_text(bad[0])} if bad else None)
 
+
+@rule("R-C16-8", min_instances=6, title="pings stop when the connection ends: every abnormal loss stops the ping thread before anything else happens (also on the reconnect path, where teardown is not run)")
+def r8(ctx):
+    from .c15 import r1 as loss_table
+    loss_table(ctx)
+
